@@ -22,8 +22,30 @@ class C05(Prop):
         yield 'corpus', [mk(s) for s in corpus]
         yield 'files', [mk(M.gen_file(rng, maxdepth=rng.choice([1, 3, 6]))) for _ in range(n)]
         yield 'name-clash', [mk(M.gen_file(rng, maxdepth=3, pool=M.NAMES3)) for _ in range(n // 2)]
+        # elements of classes the parser does not know, with any payload (names as plain strings, odd dicts, lists),
+        # inserted at root, in namespaces and among an interface's types: the result is that of the document without them
+        import copy
+        skips = []
+        payloads = [{}, {'name': 'plain'}, {'name': {'<class>': 'weird', 'x': 1}}, {'name': ['a', 'b']}, {'name': 5},
+                    {'name': {'<class>': 'scope_name', 'ids': ['ok']}}, {'elements': 7}, {'value': None, 'name': ''}]
+        for _ in range(n // 4):
+            src = M.gen_file(rng, maxdepth=rng.choice([1, 2, 3]))
+            without = M.enc_root(src)
+            doc = copy.deepcopy(without)
+            for _k in range(rng.randint(1, 3)):
+                lists = [p for p in M.all_paths(doc) if isinstance(M.get_at(doc, p), list) and p and p[-1] == 'elements'
+                         and M.get_at(doc, p[:-1]).get('<class>') in ('root', 'namespace', 'types')]
+                p = rng.choice(lists)
+                lst = M.get_at(doc, p)
+                el = dict(rng.choice(payloads))
+                el['<class>'] = rng.choice(['bogus', 'event', 'port', 'import2', 'Component', 'behaviour'])
+                lst.insert(rng.randint(0, len(lst)), el)
+            skips.append({'op': 'c05.skip', 'src': src, 'ast': doc, 'without': without})
+        yield 'unknown-with-payload', skips
 
     def impl(self, case):
+        if case['op'] == 'c05.skip':
+            return {'with': M.parse_real(case['ast']), 'without': M.parse_real(case['without'])}
         return M.parse_real(case['ast'])
 
     def shape(self, case, impl_out):
@@ -31,6 +53,8 @@ class C05(Prop):
 
     def classify(self, case, impl_out):
         n = M.count_decls(case['src'])
+        if case['op'] == 'c05.skip':
+            return 'skip:' + ('same' if impl_out['with'] == impl_out['without'] else 'differs')
         return ('err:' + impl_out['err']) if 'err' in impl_out else ('decls:' + ('0' if n == 0 else '1-5' if n <= 5 else '6-20' if n <= 20 else '>20'))
 
 
